@@ -136,6 +136,9 @@ def instances(tier, seed):
     add("rt:frac:tr:arbitrary-orientation", cell='tr', N=2, terms={'bond': 1}, fract=True, cost=30)
     add("rt:frac:orot:two-extra-term-columns", cell='orot', N=2, terms={'bond': 1, 'angle': 1, 'dihedral': 1}, fract=True, extra2=True, cost=30)
     add("rt:frac:t2:history:written-before-in-another-cell", cell='t2', N=2, terms={'bond': 1}, fract=True, history='written-before-in-another-cell', cell_before='o2', cost=40)
+    add("rt:frac:o1:improper-without-dihedrals", cell='o1', N=2, terms={'improper': 1}, fract=True, cost=10)
+    add("rt:frac:t1:extra-atom-columns-named-like-handled-tags", cell='t1', N=2, terms={'bond': 1}, fract=True, extra=True,
+        extra_names=['_atom_site_label_component_0', '_atom_site_charge_method'], cost=20)
     add("rt:cart:nocell", cell=None, N=2, terms={}, fract=True, cost=5)
     # two atom types of the same element (force-field typed structure): labels must still be unique per atom
     add("rt:frac:o1:two-types-one-element", cell='o1', N=3, terms={'bond': 1, 'angle': 1}, fract=True, typed=True, cost=30)
@@ -168,8 +171,9 @@ def body(ctx, p):
         pos = [[frac[i][c] * 4.0 for c in range(3)] for i in range(N)]
     kw = {}
     xl = {}
+    XN = p.get('extra_names') or ['_atom_site_occupancy', '_atom_site_note']
     if p.get('extra'):
-        kw.update(extra_atom_labels=['_atom_site_occupancy', '_atom_site_note'], extra_atom_fields=[[f"0.{i + 1}", f"n{i}"] for i in range(N)])
+        kw.update(extra_atom_labels=list(XN), extra_atom_fields=[[f"0.{i + 1}", f"n{i}"] for i in range(N)])
     if p.get('typed'):
         els = ['C', 'C', 'O'][:N]
         a = Atoms(atom_types=[0, 1, 2][:N], atom_type_elements=['C', 'C', 'O'], atom_type_labels=['C_R', 'C_3', 'O_2'], positions=np.zeros((N, 3)), cell=cell, **kw)
@@ -250,7 +254,7 @@ def body(ctx, p):
         ctx.require('torsions reproduced: dihedrals followed by impropers, between the same atoms',
                     AND(len(rows) == len(four), *[EQ(rows[j][0][c], four[j][c]) for j in range(min(len(rows), len(four))) for c in range(4)]), detail=dict(n=len(rows)))
     if p.get('extra'):
-        ctx.require('extra per-atom columns reproduced', list(r.extra_atom_labels) == ['_atom_site_occupancy', '_atom_site_note']
+        ctx.require('extra per-atom columns reproduced', list(r.extra_atom_labels) == list(XN)
                     and [list(map(str, row)) for row in r.extra_atom_fields] == [[f"0.{i + 1}", f"n{i}"] for i in range(N)], detail=dict(labels=list(r.extra_atom_labels)))
     else:
         ctx.require('no extra per-atom columns appear', list(r.extra_atom_labels) == [], detail=dict(labels=list(r.extra_atom_labels)))
